@@ -229,7 +229,13 @@ ExtractFails(e) ==
               IF NKS = 0 THEN r.first = <<>> /\ r.at = <<>>
               ELSE /\ r.first = KS[1] /\ r.last = KS[NKS] /\ r.both = <<KS[1], KS[NKS]>> /\ r.term = <<KS[1], KS[NKS]>>
                    /\ \A j \in 1..Len(r.at) : r.at[j][2] = KS[r.at[j][1] + 1]
-  IN {c \in {"X1", "X2", "X3"} : ~(CASE c = "X1" -> X1 [] c = "X2" -> X2 [] c = "X3" -> X3)}
+      \* Exts::from_slice_bounds / from_dna_string: the flanks of a window (none at a sequence end)
+      X4 == \A i \in 1..Len(e.flanks) :
+              LET f == e.flanks[i]
+                  wl == IF f.start > 0 THEN {s[f.start]} ELSE {}
+                  wr == IF f.start + f.len < n THEN {s[f.start + f.len + 1]} ELSE {}
+              IN SetOf(f.l) = wl /\ SetOf(f.r) = wr /\ SetOf(f.l2) = wl /\ SetOf(f.r2) = wr
+  IN {c \in {"X1", "X2", "X3", "X4"} : ~(CASE c = "X1" -> X1 [] c = "X2" -> X2 [] c = "X3" -> X3 [] c = "X4" -> X4)}
 
 \* ---------------------------------------------------------------- ASCII ingestion (C16)
 \* maximal runs of ACGT letters, in order
